@@ -11,7 +11,7 @@ REAL = ["dbus/dbus-list.c"]
 def jobs(tier):
     J = []
     names = {0: "expect", 1: "check", 2: "disconnect", 3: "expire"}
-    for op in (0, 1, 2):   # OP 3 (expire -> NoReply through a real transaction) does not finish symex in 5 min; see DESIGN.md
+    for op in (0, 1, 2, 3):
         for p in (0, 1, 2, 3):
             if op == 3 and p == 0: continue
             tiers = ("quick", "thorough") if p <= 2 else ("thorough",)
@@ -25,6 +25,11 @@ def jobs(tier):
                                 "bus_context_check_security_policy = symbolic allow/deny", "monitors list empty"],
                          bounds=f"{p} open slots over 3 connections, serials 32-bit, limit 1..INT_MAX; commit/cancel symbolic",
                          shape=f"{names[op]}, {p} slots", cost=1 + p))
+    J.append(Job(name="error_reply", group="C05.error_reply", harness="harness/C09_pending.c", defines={"P": 0, "OP": 4}, real=REAL, env=ENV,
+                 checks="assert", unwind=7, unwindset=["strcmp.0:48"], timeout=600,
+                 encodes=["bus_transaction_send_error_reply", "bus_transaction_send_from_driver", "bus_transaction_send", "bus_transaction_execute_and_free", "connection_execute_transaction"],
+                 stubs=["DBusMessage = record (R8) incl. construction", "dbus_connection_send_preallocated = ghost send log", "bus_context_check_security_policy = symbolic allow/deny"],
+                 bounds="one failed message with symbolic header record, error reply to one of 3 connections", shape="error reply through the real transaction"))
     for p in (1, 2, 3):
         J.append(Job(name=f"expiry_pass.P{p}", group="C09.expiry", harness="harness/C09_expire.c", defines={"P": p}, real=REAL, env=["assert_stubs.c", "mem.c", "pool_lock.c"],
                      checks="assert", unwind=6, timeout=600, encodes=["do_expiration_with_monotonic_time"],
